@@ -1215,6 +1215,67 @@ def ioport_selfclosing_input_cases(ctx, hook):
     return n
 
 
+def small_message_cases(ctx, hook):
+    """The smallest messages there are - an empty sysex (F0 F7), a clock, a note with all-zero fields - come through every
+    kind of port like any other: taken in by the device, handed out by receive / poll / iteration, one by one, then the
+    blocking call still terminates when the device hangs up."""
+    n = 0
+    smalls = [Message('sysex'), Message('clock'), Message('note_off', note=0, velocity=0), Message('sysex', data=()), Message('tune_request'),
+              Message('songpos', pos=0), Message('sysex', data=(0,))]
+    for ptype in ('rec', 'ioport', 'multi', 'echo'):
+        for batch in (1, len(smalls)):
+            for via in ('receive', 'poll', 'iterate', 'iter_pending'):
+                case = {'kind': 'small-messages', 'ptype': ptype, 'batch': batch, 'via': via}
+                log = []
+                dev = [m.copy() for m in smalls]
+                if ptype == 'echo':
+                    port = EchoPort('e')
+                    for m in dev:
+                        port.send(m)
+                    inner = []
+                else:
+                    pin = RecordingPort('i', log=log, dev=list(dev), batch=batch, close_at=len(dev), label='in')
+                    inner = [pin]
+                    port = pin if ptype == 'rec' else IOPort(pin, RecordingPort('o', log=log, label='out')) if ptype == 'ioport' \
+                        else MultiPort([pin])
+                hook.arm({}, None, None, limit=60)
+                got = []
+                try:
+                    if via == 'receive':
+                        for _ in dev:
+                            got.append(port.receive())
+                    elif via == 'poll':
+                        for _ in range(len(dev) + 3):
+                            m = port.poll()
+                            if m is not None:
+                                got.append(m)
+                    elif via == 'iterate' and ptype != 'echo':
+                        try:
+                            for m in BaseIterate(port):
+                                got.append(m)
+                                if len(got) == len(dev) and ptype in ('ioport', 'multi'):
+                                    break          # (these wrappers stay open: how their iteration ends is judged elsewhere)
+                        except (ValueError, OSError):
+                            pass
+                    else:
+                        for _ in range(len(dev) + 1):
+                            got.extend(port.iter_pending())
+                    ctx.check('results == lifecycle model', got == smalls, 'small-messages:lost-or-changed', case,
+                              lambda: {'got': [m.hex() for m in got], 'want': [m.hex() for m in smalls]})
+                except HarnessAbort as exc:
+                    ctx.check('blocking call bounded sleeps', False, 'small-messages:blocked', case,
+                              {'delivered': [m.hex() for m in got], 'why': str(exc)})
+                except Exception as exc:
+                    ctx.fail('results == lifecycle model', f'small-messages:{type(exc).__name__}', case, repr(exc))
+                for p_ in [port] + inner:
+                    try:
+                        p_.close()
+                    except Exception:
+                        pass
+                n += 1
+    return n
+
+
 def multiport_failing_member(ctx, hook):
     """One member's device read fails (OSError) during a polling round.  Whatever the round had
     already taken out of the healthy members has been taken in by the MultiPort: it must still be
@@ -1628,6 +1689,10 @@ def run(ctx):
             ctx.nontrivial(None, k)
             ctx.extra('echo_blocking_cases', k)
             n += k
+            k = small_message_cases(ctx, hook)
+            ctx.nontrivial(None, k)
+            ctx.extra('small_message_cases', k)
+            n += k
             k = ioport_selfclosing_input_cases(ctx, hook)
             ctx.nontrivial(None, k)
             ctx.extra('ioport_selfclosing_input_cases', k)
@@ -1675,6 +1740,8 @@ def replay(ctx, case):
             socket_lifecycle_cases(ctx, hook)
         elif k == 'multi-selfclose':
             multiport_selfclosing_member(ctx, hook)
+        elif k == 'small-messages':
+            small_message_cases(ctx, hook)
         elif k == 'ioport-selfclosing-input':
             ioport_selfclosing_input_cases(ctx, hook)
         elif k == 'selfclosing-on-send':
